@@ -827,7 +827,7 @@ func (m *monitor) checkList(rng *rand.Rand, fs []field, truncate bool) {
 func TestC01(t *testing.T) {
 	r := kit.Start(t, "C01", "exploration")
 	defer r.Finish()
-	r.Rule("typed value lists of 1-12 fields over 16 primitive kinds (fixed ints, signed ints, bool, byte, var-uint, var-bytes, string, Address, Uint256, Fixed64, raw run), values and lengths biased to 0/0xFC/0xFD/0xFFFF/0x10000/2^32/2^63/2^64-1; each list: both encoders, both decoders, every prefix (all if <=4 KiB, field boundaries±1 + 64 sampled otherwise), oversized length prefixes, random corruption; distinct = sequence of (kind, byte length | var-uint width class)")
+	r.Rule("typed value lists of 1-12 fields over 16 primitive kinds (fixed ints, signed ints, bool, byte, var-uint, var-bytes, string, Address, Uint256, Fixed64, raw run), values and lengths biased to 0/0xFC/0xFD/0xFFFF/0x10000/2^32/2^63/2^64-1; each list: both encoders, both decoders, every prefix (all if <=4 KiB, field boundaries±1 + 64 sampled otherwise), oversized length prefixes, random corruption; plus byte strings / strings / raw runs of 2-4 MiB; distinct = sequence of (kind, byte length | var-uint width class)")
 	r.Assume("non-canonical var-uints and serialization.ReadBool accepting any non-zero byte are not judged (DESIGN §8); only writer-produced bytes are compared across codecs")
 	r.Assume("after a reader has reported eof/err the caller stops; data returned by later calls is recorded (obs_success_after_reported_error) but not judged")
 	m := &monitor{r: r}
@@ -920,16 +920,25 @@ func TestC01(t *testing.T) {
 		m.oversizeDirect(rng)
 	}
 
-	// (d) thorough: a var-bytes value of 2 MiB+1 crosses the streaming reader's large-value path
+	// (d) byte strings / strings / raw runs of 2 MiB .. 4 MiB: large values take a different route
+	// through the streaming reader than small ones; both decoders must still return what was written
+	hugeSizes := []int{2 * 1024 * 1024, 2*1024*1024 + 1, 3 * 1024 * 1024}
 	if !r.Quick() {
-		for _, n := range []int{2*1024*1024 - 1, 2 * 1024 * 1024, 2*1024*1024 + 1} {
-			b := make([]byte, n)
-			rng.Read(b)
-			m.checkList(rng, []field{{k: kU16, u: 7}, {k: kVarBytes, b: b}, {k: kVarUint, u: 0xFD}}, true)
-			r.Count("huge_values", 1)
-		}
-		r.Require("huge_values", 3)
+		hugeSizes = []int{2*1024*1024 - 1, 2 * 1024 * 1024, 2*1024*1024 + 1, 2*1024*1024 + 0xFFFF, 3 * 1024 * 1024, 4*1024*1024 + 5}
 	}
+	for i, n := range hugeSizes {
+		b := make([]byte, n)
+		rng.Read(b)
+		k := []kind{kVarBytes, kString, kRaw}[i%3]
+		before := r.Get("full_decodes_stream")
+		m.checkList(rng, []field{{k: kU16, u: 7}, {k: k, b: b}, {k: kVarUint, u: 0xFD}}, true)
+		if r.Get("full_decodes_stream") > before {
+			r.Count("huge_values_roundtrip_stream", 1)
+		}
+		r.Count("huge_values", 1)
+	}
+	r.Require("huge_values", len(hugeSizes))
+	r.Require("huge_values_roundtrip_stream", len(hugeSizes))
 
 	r.Require("lists_encoded_identically", nLists)
 	r.Require("full_decodes_zerocopy", nLists)
